@@ -77,6 +77,9 @@ const SPECS: [&str; 47] = [
     ":!(icase)A",
     ":(,icase)A",
 ];
+/// specs with different literal directory prefixes (plus one wildcard and one exclude): every ordered list of three of them is run in
+/// quick and thorough - the common prefix of three or more specs must shrink monotonically, whatever their order
+const PREFIX_SPECS: [&str; 7] = ["a/a", "a/b", "c/a", "c/b", "ab", "a/d/*", ":(exclude)a/b"];
 /// sub-alphabet for lists of three (thorough)
 const TRIPLE_SPECS: [&str; 9] = ["a", "*b", ":(glob)a/*", ":(icase)A", ":(exclude)a/b", ":!b", ":(top)a", ":(attr:x)", ":(attr:x y)"];
 
@@ -91,6 +94,7 @@ static PATH_DECISIONS: AtomicU64 = AtomicU64::new(0);
 static SELECTED: AtomicU64 = AtomicU64::new(0);
 static GIT_REFUSED: AtomicU64 = AtomicU64::new(0);
 static GIT_CALLS: AtomicU64 = AtomicU64::new(0);
+static PERMUTATIONS: AtomicU64 = AtomicU64::new(0);
 static OUTSIDE_DOMAIN: AtomicU64 = AtomicU64::new(0);
 
 /// What git's pathspec parser makes of one of *our* specs (only the syntax used in SPECS is understood).
@@ -210,6 +214,33 @@ fn git_attr_prefix_bug(specs: &[String], cwd: &str) -> bool {
     items.iter().any(|i| i.attr) && !items.iter().all(|i| i.exclude) && git_max_prefix(&items) > 0
 }
 
+/// The index paths gix_pathspec selects (matched and not excluded) for `specs` given in the working directory `cwd`.
+fn gix_select(root: &Path, cwd: &str, specs: &[String]) -> Result<BTreeSet<String>, String> {
+    let parsed: Result<Vec<_>, _> = specs.iter().map(|s| gix_pathspec::parse(s.as_bytes(), Default::default())).collect();
+    let mut search = parsed
+        .map_err(|e| e.to_string())
+        .and_then(|p| gix_pathspec::Search::from_specs(p, (!cwd.is_empty()).then(|| Path::new(cwd)), root).map_err(|e| e.to_string()))?;
+    let mut collection = Default::default();
+    let attrs = match gix_attributes::Search::new_globals(Some(root.join(".gitattributes")), &mut Vec::new(), &mut collection) {
+        Ok(a) => a,
+        Err(e) => vkit::machinery!("cannot read fixture attributes: {e}"),
+    };
+    let mut ours = BTreeSet::new();
+    for p in PATHS {
+        let rela: &BStr = p.into();
+        let selected = search
+            .pattern_matching_relative_path(rela, Some(false), &mut |rela_path, case, is_dir, out| {
+                out.initialize(&collection);
+                attrs.pattern_matching_relative_path(rela_path, case, Some(is_dir), out)
+            })
+            .map_or(false, |m| !m.is_excluded());
+        if selected {
+            ours.insert(p.to_string());
+        }
+    }
+    Ok(ours)
+}
+
 fn eval(root: &Path, c: &SpecCase) -> Verdict {
     // ---- outside the domain ----
     let is_exclude = |s: &String| s.starts_with(":!") || (s.starts_with(":(") && s[..s.find(')').unwrap_or(0)].contains("exclude"));
@@ -241,11 +272,7 @@ fn eval(root: &Path, c: &SpecCase) -> Verdict {
     }
 
     // ---- gitoxide ----
-    let parsed: Result<Vec<_>, _> = c.specs.iter().map(|s| gix_pathspec::parse(s.as_bytes(), Default::default())).collect();
-    let search = parsed
-        .map_err(|e| e.to_string())
-        .and_then(|p| gix_pathspec::Search::from_specs(p, (!c.cwd.is_empty()).then(|| Path::new(&c.cwd)), root).map_err(|e| e.to_string()));
-    let mut search = match (search, &git) {
+    let ours = match (gix_select(root, &c.cwd, &c.specs), &git) {
         (Ok(s), Some(_)) => s,
         (Err(_), None) => {
             GIT_REFUSED.fetch_add(1, Ordering::Relaxed);
@@ -262,22 +289,24 @@ fn eval(root: &Path, c: &SpecCase) -> Verdict {
         }
     };
     let git = git.expect("handled above");
-    let mut collection = Default::default();
-    let attrs = match gix_attributes::Search::new_globals(Some(root.join(".gitattributes")), &mut Vec::new(), &mut collection) {
-        Ok(a) => a,
-        Err(e) => vkit::machinery!("cannot read fixture attributes: {e}"),
-    };
-    let mut ours = BTreeSet::new();
-    for p in PATHS {
-        let rela: &BStr = p.into();
-        let selected = search
-            .pattern_matching_relative_path(rela, Some(false), &mut |rela_path, case, is_dir, out| {
-                out.initialize(&collection);
-                attrs.pattern_matching_relative_path(rela_path, case, Some(is_dir), out)
-            })
-            .map_or(false, |m| !m.is_excluded());
-        if selected {
-            ours.insert(p.to_string());
+    // the selected set must not depend on the order of the specs (it never does in git)
+    if (2..=3).contains(&c.specs.len()) {
+        let mut other: Option<(Vec<String>, BTreeSet<String>)> = None;
+        vkit::enumerate::permutations(&c.specs, |perm| {
+            if other.is_none() && perm != c.specs.as_slice() {
+                if let Ok(sel) = gix_select(root, &c.cwd, perm) {
+                    if sel != ours {
+                        other = Some((perm.to_vec(), sel));
+                    }
+                }
+            }
+        });
+        PERMUTATIONS.fetch_add(if c.specs.len() == 2 { 1 } else { 5 }, Ordering::Relaxed);
+        if let Some((perm, sel)) = other {
+            return bad(
+                "order-dependent",
+                format!("from cwd {:?}: specs {:?} select {ours:?} but the same specs in the order {perm:?} select {sel:?} (git ls-files: {git:?})", c.cwd, c.specs),
+            );
         }
     }
     PATH_DECISIONS.fetch_add(PATHS.len() as u64, Ordering::Relaxed);
@@ -349,7 +378,10 @@ pub fn run(run: &'static Run) {
         "index paths (fixed, all selected/not-selected decisions are per path): {PATHS:?}; root .gitattributes = {ATTRIBUTES:?}. pathspec lists: every ordered list of 1..2 specs \
          from {specs:?}{}, each run from the repository root and from the sub-directory a/. Compared: the set of index paths selected (matched and not excluded) by \
          gix_pathspec::Search::pattern_matching_relative_path with the set printed by `git ls-files --full-name -- <specs>`. non-trivial = git selects some but not all paths",
-        if run.quick() { String::new() } else { format!(", plus every ordered list of 3 specs from {TRIPLE_SPECS:?}") }
+        format!(
+            ", plus every ordered list of 3 specs from {PREFIX_SPECS:?}{}; for every list of 2..3 specs all permutations must select the same set in gitoxide",
+            if run.quick() { String::new() } else { format!(" and from {TRIPLE_SPECS:?}") }
+        )
     ));
     run.assume("git 2.39.5 `ls-files` as oracle; lists git refuses (exit 128, e.g. a spec leaving the repository) are not compared");
     run.assume("every index entry is a regular file at stage 0 (is_dir = false for all queries)");
@@ -400,6 +432,11 @@ pub fn run(run: &'static Run) {
                     }
                 });
             }
+            vkit::enumerate::seqs(&PREFIX_SPECS, 3, 3, |list| {
+                for cwd in ["", "a"] {
+                    emit(SpecCase { cwd: cwd.into(), specs: list.iter().map(|s| s.to_string()).collect() });
+                }
+            });
             if !run.quick() {
                 vkit::enumerate::seqs(&TRIPLE_SPECS, 3, 3, |list| {
                     for cwd in ["", "a"] {
@@ -415,6 +452,7 @@ pub fn run(run: &'static Run) {
         run.cov("path_decisions_compared", PATH_DECISIONS.load(Ordering::Relaxed));
         run.cov("paths_selected_by_git", SELECTED.load(Ordering::Relaxed));
         run.cov("lists_refused_by_git", GIT_REFUSED.load(Ordering::Relaxed));
+        run.cov("permutations_checked_for_order_independence", PERMUTATIONS.load(Ordering::Relaxed));
         run.cov("lists_outside_domain", OUTSIDE_DOMAIN.load(Ordering::Relaxed));
         run.cov("oracle_calls_git", GIT_CALLS.load(Ordering::Relaxed));
         run.require("git selected paths", SELECTED.load(Ordering::Relaxed) > 100);
